@@ -126,37 +126,49 @@ def check (sha256hex : Bytes → Bytes) (hmac : Bytes → Bytes → Bytes) (look
       else if (getUnique c.hs b!"authorization").isSome then ofVerdict (v4CheckHeaderAuth sha256hex hmac (some lookup) c)
       else .anon
 
-/-- `ops::prepare` up to the authentication verdict -/
-def prepare (sha256hex : Bytes → Bytes) (hmac : Bytes → Bytes → Bytes) (lookup : Bytes → Option Bytes) (nowNs : Int)
-    (w : Wire) : Outcome :=
+/-- what `ops::prepare` has put into the `SignatureContext` when it calls `check` -/
+structure Prepared where
+  c : Ctx
+  /-- `req.uri().query().is_some()`: `SignatureContext::qs` is `Some` -/
+  hasQuery : Bool
+  mime : MimeKind
+
+/-- `ops::prepare` leaves before the signature check: with an error response, or the request is outside the model -/
+inductive Early where
+  | err (code : ErrCode)
+  | unmodelled (why : String)
+  deriving DecidableEq, Repr
+
+/-- `ops::prepare` up to the call of `SignatureContext::check`: the context handed over, or the early exit -/
+def prepareCtx (w : Wire) : Except Early Prepared :=
   match urlDecode w.rawPath with
-  | none => .err .InvalidURI
+  | none => .error (.err .InvalidURI)
   | some path =>
     -- `extract_host`: the first Host header must be `to_str`-able
     match (w.headers.find? fun p => lower p.1 = b!"host") with
-    | some h => if h.2.all isVisibleAscii then go path else .err .InvalidRequest
+    | some h => if h.2.all isVisibleAscii then go path else .error (.err .InvalidRequest)
     | none => go path
 where
-  go (path : Bytes) : Outcome :=
+  go (path : Bytes) : Except Early Prepared :=
     match parsePathStyle path with
-    | none => .unmodelled "bucket-ip-like"
-    | some (.error e) => .err e
+    | none => .error (.unmodelled "bucket-ip-like")
+    | some (.error e) => .error (.err e)
     | some (.ok _) =>
       let qs := match w.rawQuery with | some q => orderedQs q | none => []
       let cl := match (w.headers.find? fun p => lower p.1 = b!"content-length") with
         | some h => atoiPlain h.2
         | none => some none
       match cl with
-      | none => .unmodelled "content-length-signed"
+      | none => .error (.unmodelled "content-length-signed")
       | some contentLength =>
         match orderedHeaders w.headers with
-        | none => .err .InvalidRequest
+        | none => .error (.err .InvalidRequest)
         | some hs =>
           let mime : Option MimeKind := match getUnique hs b!"content-type" with
             | none => some .absent
             | some v => classifyMime v
           match mime with
-          | none => .unmodelled "content-type"
+          | none => .error (.unmodelled "content-type")
           | some mime =>
             let dcl : Option (Except ErrCode (Option Nat)) := match getUnique hs b!"x-amz-decoded-content-length" with
               | none => some (.ok none)
@@ -165,11 +177,19 @@ where
                 | some none => some (.error .InvalidRequest)
                 | some (some n) => some (.ok (some n))
             match dcl with
-            | none => .unmodelled "decoded-length-signed"
-            | some (.error e) => .err e
+            | none => .error (.unmodelled "decoded-length-signed")
+            | some (.error e) => .error (.err e)
             | some (.ok decodedContentLength) =>
               let c : Ctx := { http2 := w.http2, authority := w.authority, method := w.method, path, qs, hs,
                                body := w.body, bodyOnce := w.bodyOnce, contentLength, decodedContentLength }
-              check sha256hex hmac lookup nowNs c w.rawQuery.isSome mime w
+              .ok { c, hasQuery := w.rawQuery.isSome, mime }
+
+/-- `ops::prepare` up to the authentication verdict -/
+def prepare (sha256hex : Bytes → Bytes) (hmac : Bytes → Bytes → Bytes) (lookup : Bytes → Option Bytes) (nowNs : Int)
+    (w : Wire) : Outcome :=
+  match prepareCtx w with
+  | .error (.err e) => .err e
+  | .error (.unmodelled why) => .unmodelled why
+  | .ok p => check sha256hex hmac lookup nowNs p.c p.hasQuery p.mime w
 
 end S3V.SigV4.E2E
